@@ -511,7 +511,13 @@ pub fn check(prop: &dyn Prop, ctx: &Ctx, only: Option<&str>) -> i32 {
         }
     }
     let mut code = 0;
-    if let Some(f) = &out.failure {
+    let infra = out.failure.as_ref().map(|f| f.fail.detail["infrastructure"].as_bool() == Some(true)).unwrap_or(false);
+    if infra {
+        let f = out.failure.as_ref().unwrap();
+        println!("INFRASTRUCTURE property={} campaign={} {}", prop.id(), f.campaign, f.fail.msg);
+        notes.push(format!("infrastructure trouble: {}", f.fail.msg));
+        code = 2;
+    } else if let Some(f) = &out.failure {
         violations = 1;
         let path = write_replay(ctx, prop, f);
         println!("failure in campaign {}: {}", f.campaign, f.fail.msg);
